@@ -14,7 +14,9 @@ loader.exec_module(check)
 
 TIE = (" The model is tied to /repo on every run: the Rust harness drives the real library in-process under a deterministic "
        "waker-strict executor, the Lean driver executes the model on the same generated scripts, and the two transcripts must be "
-       "identical; independent Python oracles (own MQTT parsers) judge the implementation's transcripts directly and supply the failing input.")
+       "identical (scripts: per-property families, kitchen-sink walks over every cross-cutting dimension, and for C05/C06/C10/C15 "
+       "reactive-broker scripts expanded against the implementation's own output); independent Python oracles (own MQTT parsers) "
+       "judge the implementation's transcripts directly and supply the failing input.")
 TRUST = ("Trusted: Lean 4.33 kernel; axioms propext, Classical.choice, Quot.sound only (audited by #print axioms on every run); the "
          "hand-written model being the code — checked by differential execution, which samples; futures channels / select! / async "
          "lowering / bytes / derive_builder modelled as parameters with their documented semantics. ")
@@ -116,7 +118,7 @@ def main():
                            kind_free_text="Lean 4 theorems over an executable model of codec, framing machine and actor (lean/); Rust harness "
                            "(harness/) drives the real library under a deterministic executor; transcripts diffed line by line; Python oracles "
                            "(checklib/oracles.py) search for failing inputs; corpus/ holds regression scripts of every repaired defect")],
-             checks=checks, notes="see DESIGN.md; checks share builds under a lock; work/ is scratch; known_findings.json lists K1 (C15) and the 20 repaired defects",
+             checks=checks, notes="see DESIGN.md; checks share builds under a lock; work/ is scratch; known_findings.json lists K1 (C15) and the 21 repaired defects; seeded/ holds 119 independently written breaking changes (tools/seeded_regress.sh)",
              not_applicable=na)
     json.dump(m, open(os.path.join(ROOT, 'MANIFEST.json'), 'w'), indent=1)
     print('claimed', [c['property_id'] for c in checks], 'not yet', [x['property_id'] for x in na])
